@@ -275,6 +275,86 @@ def rules_rule(ctx, prefix):
     return obs
 
 
+def calc_modes(ctx, d):
+    """The value routine is interpreted abstractly (lib/absint.py) once per value of its mode parameter (whatever its type: an
+    Option of a struct, an enum, a bool).  Per mode: which token reader it uses, and which mode every recursive call hands on
+    (per dispatch arm, and for functions per outcome of the math-function test).
+    -> {mode value: {"reads": set, "nested": [(arm label, math True/False/None, value)], "tainted": bool}} or None"""
+    import absint as ai
+    f = d.fn
+    sc = ctx.sc
+    pn = [x for x in f.param_names() if x]
+    if not pn:
+        return None
+    mode_param = pn[-1]
+    pm = sir.parent_map(f.body)
+    arm_of = {}
+    for a in d.arms:
+        for x in sir.walk(a.node):
+            arm_of[id(x)] = "+".join(a.variants)
+    preds = set(g.name for g in sc.fns if g.body and g.ret == "bool" and len([x for x in g.param_names() if x]) == 1 and not g.base)
+    # externally supplied modes
+    seeds = []
+    for g in sc.fns:
+        if not g.body or g is f:
+            continue
+        for c in sir.walk(g.body):
+            if c.get("k") == "call" and sir.call_name(c) == f.name and c["args"]:
+                vs = [o.value for o in ai.Interp().run(c["args"][-1], {}) if o.kind == "val"]
+                if len(vs) == 1 and not ai.is_unknown(vs[0]):
+                    seeds.append(vs[0])
+    if not seeds:
+        return None
+
+    def run(mode):
+        def hooks(it, e, st):
+            k = e.get("k")
+            if k == "mcall" and e["m"] == "parse_nested_block" and e["args"] and e["args"][-1].get("k") == "closure":
+                return [ai.Out("val", ai.FREE, o.st) for o in it.call_closure(("closure", 0, e["args"][-1]), [ai.FREE], st)]
+            if k == "mcall" and e["m"] in ("next", "next_including_whitespace", "next_including_whitespace_and_comments") and "input" in sir.expr_str(e["recv"]):
+                return [(ai.FREE, st.event(("read", e["m"])))]
+            if k == "mcall" and e["m"] == "try_parse":
+                return [(ai.FREE, st)]
+            if k == "call" and sir.call_name(e) == f.name and e["args"]:
+                vs = [o.value for o in it.ev(e["args"][-1], st) if o.kind == "val"]
+                math = [ev[2] for ev in st.events if ev[0] == "pred"]
+                return [(ai.UNIT, st.event(("nested", arm_of.get(id(e), "?"), math[-1] if math else None, vs[0] if len(vs) == 1 else ai.UNK)))]
+            if k == "call" and sir.call_name(e) in preds and len(e["args"]) == 1:
+                return [(True, st.event(("pred", sir.call_name(e), True))), (False, st.event(("pred", sir.call_name(e), False)))]
+            return None
+        it = ai.Interp(hooks=hooks, idx=sc)
+        it.max_paths = 4000
+        env = {x: ai.FREE for x in pn}
+        env[mode_param] = mode
+        try:
+            outs = it.run(f.body, env)
+        except ai.TooManyPaths:
+            return None
+        reads, nested, tainted = set(), [], False
+        for o in outs:
+            for ev in o.events:
+                if ev[0] == "read":
+                    reads.add(ev[1])
+                elif ev[0] == "nested":
+                    nested.append((ev[1], ev[2], ev[3]))
+                    tainted = tainted or (o.tainted and ai.is_unknown(ev[3]))
+        return {"reads": reads, "nested": sorted(set(nested), key=repr), "tainted": tainted}
+    table = {}
+    work = list(dict.fromkeys(seeds))
+    while work and len(table) < 5:
+        m = work.pop(0)
+        if m in table:
+            continue
+        r = run(m)
+        if r is None:
+            return None
+        table[m] = r
+        for _arm, _math, v in r["nested"]:
+            if not ai.is_unknown(v) and v not in table and v not in work:
+                work.append(v)
+    return table
+
+
 def calc_rule(ctx, prefix):
     ob = ctx.ob
     obs = []
@@ -285,6 +365,10 @@ def calc_rule(ctx, prefix):
     ref = cm.css_ref()
     math = set(ref["math_functions"])
     val = f.name
+    import absint as ai
+    modes = calc_modes(ctx, d)
+    if modes is not None:
+        return calc_rule_by_modes(ctx, prefix, d, modes, math)
     for tok in ("CurlyBracketBlock", "SquareBracketBlock", "ParenthesisBlock"):
         arm = d.arm(tok)
         rec = [n for n in sir.walk(arm.body) if n.get("k") == "call" and sir.call_name(n) == val] if arm else []
@@ -353,6 +437,107 @@ def calc_rule(ctx, prefix):
         okw = {"+", "-"} <= chars and ahead and behind and calc
         dsw = "tests for `+`/`-`: %s; looks at the next token: %s; looks at the previous token: %s; only inside math functions: %s" % ({"+", "-"} <= chars, ahead, behind, calc)
     obs.append(ob("%s.calc/whitespace-arm" % prefix, okw, where, "whitespace is kept when the next or the previous token is `+` or `-`: %s" % dsw))
+    return obs
+
+
+def calc_rule_by_modes(ctx, prefix, d, modes, math):
+    import absint as ai
+    ob = ctx.ob
+    obs = []
+    f = d.fn
+    where = ctx.where(f)
+
+    def kind(m):
+        r = modes.get(m)
+        if r is None:
+            return None
+        if any("whitespace" in x for x in r["reads"]):
+            return "math" if all("whitespace" in x for x in r["reads"]) else "mixed"
+        return "plain" if r["reads"] else None
+
+    def show(m):
+        return "%s(%s)" % (kind(m), "None" if m == ai.NONE else m[1] if isinstance(m, tuple) and m[0] == "E" else "Some" if isinstance(m, tuple) else m)
+    math_modes = [m for m in modes if kind(m) == "math"]
+    plain_modes = [m for m in modes if kind(m) == "plain"]
+    und = [m for m in modes if kind(m) in (None, "mixed") or modes[m]["tainted"]]
+    for tok in ("CurlyBracketBlock", "SquareBracketBlock", "ParenthesisBlock"):
+        key = "%s.calc/nested/%s" % (prefix, tok)
+        if und or not math_modes:
+            obs.append(ob(key, None if und else False, where, "modes of the value routine: %s%s" % ([show(m) for m in modes], "; not readable" if und else ": none of them reads whitespace tokens, the + / - rule cannot apply")))
+            continue
+        bad, seen = [], 0
+        for m in math_modes:
+            for arm, _mt, v in modes[m]["nested"]:
+                if tok in arm.split("+"):
+                    seen += 1
+                    if kind(v) != "math":
+                        bad.append("%s -> %s" % (show(m), show(v) if v in modes else v))
+        ok = seen > 0 and not bad
+        obs.append(ob(key, ok, where, ("nested %s inside a math expression stays in a whitespace-reading mode" % tok if ok else "nested %s inside a math expression is processed in %s" % (tok, bad or "no recursive call")) +
+                      ("" if ok else ": the rule that keeps whitespace around + and - is switched off inside parentheses of a math expression"),
+                      witness=None if ok else "calc((1px + 2px)*3) is emitted as calc((1px+ 2px)*3)"))
+    # functions: a math function switches the mode on; inside a math expression every function stays in it
+    arm = d.arm("Function")
+    names = set()
+    if arm:
+        for n in sir.walk(arm.body):
+            if n.get("k") == "if":
+                names |= cm.math_condition(sir.expr_str(n["cond"]), ctx.sc)
+            if n.get("k") == "binary" and n["op"] in ("||", "&&"):
+                names |= cm.math_condition(sir.expr_str(n), ctx.sc)
+            if n.get("k") == "call" and len(n["args"]) == 1:
+                names |= cm.math_condition(sir.expr_str(n), ctx.sc)
+    missing = math - names
+    if und or not math_modes:
+        obs.append(ob("%s.calc/functions" % prefix, None if und else False, where, "modes not readable" if und else "no whitespace-reading mode"))
+    else:
+        bad = []
+        switched = 0
+        for m in modes:
+            for arm_l, mt, v in modes[m]["nested"]:
+                if "Function" not in arm_l.split("+"):
+                    continue
+                if kind(m) == "math" and kind(v) != "math":
+                    bad.append("inside a math expression the function%s is processed in %s" % ("" if mt is None else " (math test %s)" % mt, show(v) if v in modes else v))
+                if kind(m) == "plain" and mt is True:
+                    switched += 1
+                    if kind(v) != "math":
+                        bad.append("a math function is processed in %s" % (show(v) if v in modes else v))
+                if kind(m) == "plain" and mt is False and kind(v) == "math":
+                    bad.append("a non-math function switches whitespace reading on")
+        ok = not bad and not missing and (switched > 0 or not plain_modes)
+        obs.append(ob("%s.calc/functions" % prefix, ok, where,
+                      "math functions that switch on +/- whitespace preservation: %s; modes %s" % (sorted(names), [show(m) for m in modes]) +
+                      ("" if ok else "; %s" % (bad or ("not covered: %s" % sorted(missing)[:8]))),
+                      witness=None if ok else "max(1px + 2px,3px) is emitted as max(1px+ 2px,3px); calc(1px + calc(2px + 3px)) loses the inner spaces"))
+    # the whitespace arm keeps a space next to + / - (look-ahead and look-behind)
+    ws = d.arm("WhiteSpace")
+    okw = False
+    dsw = "no whitespace arm"
+    if ws:
+        nodes = list(sir.walk(ws.body))
+        seen_fns = set()
+        frontier = [ws.body]
+        for _ in range(2):
+            nxt = []
+            for b in frontier:
+                for n in sir.walk(b):
+                    if n.get("k") == "call":
+                        nm = sir.call_name(n)
+                        for g in ctx.sc.fns:
+                            if g.name == nm and g.body and id(g) not in seen_fns and g is not f:
+                                seen_fns.add(id(g))
+                                nodes += list(sir.walk(g.body))
+                                nxt.append(g.body)
+            frontier = nxt
+        chars = set(x.get("v") for x in nodes if x.get("k") == "lit" and x.get("t") == "char")
+        chars |= set(y["e"].get("v") for x in nodes if x.get("k") in ("arm", "mac") for y in sir.walk(x.get("pat") or {}) if y.get("k") == "p_lit")
+        ahead = any(x.get("k") == "mcall" and x["m"] in ("try_parse", "peek_including_whitespace", "peek") for x in nodes)
+        behind = any(x.get("k") == "path" and x.get("s") == "prev_token" for x in nodes)
+        calc = bool(math_modes) and bool(plain_modes or len(modes) == len(math_modes))
+        okw = {"+", "-"} <= chars and ahead and behind and calc
+        dsw = "tests for `+`/`-`: %s; looks at the next token: %s; looks at the previous token: %s; whitespace tokens are read only in the math mode(s): %s" % ({"+", "-"} <= chars, ahead, behind, calc)
+    obs.append(ob("%s.calc/whitespace-arm" % prefix, okw if not und else None, where, "whitespace is kept when the next or the previous token is `+` or `-`: %s" % dsw))
     return obs
 
 
@@ -493,7 +678,7 @@ def class_flag_rule(ctx, prefix):
                 return ps_ in ("Token::Delim('.')", "&Token::Delim('.')")
             uniform = len(after) == 1 and is_dot_test(after[0]["r"])
         if uniform is not None:
-            uses_ok = all(any(n.get("k") == "call" and sir.call_name(n) == "write_maybe_class_name" and sir.expr_str(n["args"][-1]) == "in_class" for n in sir.walk(a.body)) for a in d.arms if "Ident" in a.variants)
+            uses_ok = all(any(n.get("k") in ("call", "mcall") and (sir.call_name(n) or n.get("m")) == "write_maybe_class_name" and sir.expr_str(n["args"][-1]) == "in_class" for n in sir.walk(a.body)) for a in d.arms if "Ident" in a.variants)
             for a in d.arms:
                 label = "+".join(a.variants) + (("(%s)" % a.delim) if a.delim else "")
                 okk = uniform and (uses_ok or "Ident" not in a.variants)
@@ -508,7 +693,7 @@ def class_flag_rule(ctx, prefix):
                 ok = sets == [True]
                 obs.append(ob(key, ok, where, "`.` sets in_class = %s" % sets))
             elif "Ident" in a.variants:
-                uses = any(n.get("k") == "call" and sir.call_name(n) == "write_maybe_class_name" and sir.expr_str(n["args"][-1]) == "in_class" for n in sir.walk(a.body))
+                uses = any(n.get("k") in ("call", "mcall") and (sir.call_name(n) or n.get("m")) == "write_maybe_class_name" and sir.expr_str(n["args"][-1]) == "in_class" for n in sir.walk(a.body))
                 ok = uses and sets == [False]
                 obs.append(ob(key, ok, where, "identifier consumes the flag (write_maybe_class_name(.., in_class)=%s) and resets it (%s)" % (uses, sets),
                               witness=None if ok else "x:not(.a/**/b) is emitted as x:not(.p--a p--b): a type selector gets prefixed"))
@@ -517,7 +702,7 @@ def class_flag_rule(ctx, prefix):
                 obs.append(ob(key, ok, where, "any other token resets in_class (%s)%s" % (sets, " / leaves the loop" if returns else "")))
     # value routine never looks at class state
     v = roles["value-block"]
-    uses = any(n.get("k") == "path" and n["s"] == "in_class" for n in sir.walk(v.fn.body)) or any(n.get("k") == "call" and sir.call_name(n) == "write_maybe_class_name" for n in sir.walk(v.fn.body))
+    uses = any(n.get("k") == "path" and n["s"] == "in_class" for n in sir.walk(v.fn.body)) or any(n.get("k") in ("call", "mcall") and (sir.call_name(n) or n.get("m")) == "write_maybe_class_name" for n in sir.walk(v.fn.body))
     obs.append(ob("%s.flag/value-routine" % prefix, not uses, ctx.where(v.fn), "declaration values are never rewritten as classes: %s" % (not uses)))
     return obs
 
